@@ -23,7 +23,7 @@ ASSUMPTIONS = [
     "and assigned",
 ]
 BOUNDS = {"quick": {"program_size": 2}, "thorough": {"program_size": 3}}
-CHUNK = 50
+CHUNK = 15
 FRESH = ["zz_fresh", "nope_", "q9"]
 METAS_OK = ["#enter", "#exit", "#value", "#error", "#yield", "#receive"]
 METAS_BAD = ["#foo", "#Enter", "#values", "#valuex", "#enter2", "#exit_", "#err", "#yield1", "#receiver"]
